@@ -748,6 +748,10 @@ class _GuardProtocol(Protocol):
         """Return the bound counter's value, or ``-1`` when nothing is bound."""
         ...
 
+    def reopen(self, value: int) -> int:
+        """Close the bound session and open a fresh one in the same request."""
+        ...
+
 
 class _GuardImpl:
     """Implementation backing :class:`_GuardProtocol`."""
@@ -772,6 +776,12 @@ class _GuardImpl:
         """Report the bound counter's value."""
         counter = ctx.session
         return counter.value if isinstance(counter, _StickyCounter) else -1
+
+    def reopen(self, value: int, ctx: CallContext) -> int:
+        """Close whatever is bound, then open a new session — both in this one request."""
+        ctx.close_session()
+        ctx.open_session(_StickyCounter(value=value))
+        return value
 
 
 @pytest.fixture
@@ -814,6 +824,22 @@ class TestRuntimeApiGuards:
             # The no-op must not poison the view: a real session still opens.
             assert sess.open_with_ttl(value=3, ttl_ms=60_000) == 3
             assert sess.peek() == 3
+
+    def test_close_then_open_in_one_request_keeps_the_new_session(self, guard_client: _SyncTestClient) -> None:
+        """Closing and reopening in one request leaves the client tracking the new session."""
+        with (
+            http_connect(_GuardProtocol, client=guard_client) as proxy,
+            cast("Any", proxy).with_session_token() as sess,
+        ):
+            assert sess.open_with_ttl(value=1, ttl_ms=60_000) == 1
+            first = sess.current_session_token()
+            assert sess.reopen(value=2) == 2
+            second = sess.current_session_token()
+            # The new token replaced the old one instead of being dropped by
+            # a VGI-Session-Close emitted alongside it.
+            assert second is not None
+            assert second != first
+            assert sess.peek() == 2
 
     def test_per_call_ttl_override_expires_early(self, guard_client: _SyncTestClient) -> None:
         """``open_session(ttl=...)`` overrides the server default (300s here)."""
